@@ -222,3 +222,44 @@ package cache
 //@ loop 3 invariant forall u: string :: (u in r.cache) == old(u in r.cache)
 //@ loop 3 invariant forall u: string :: old(u in r.cache) ==> r.cache[u] == old(r.cache[u])
 //@ loop 3 invariant CacheWF(r)
+
+// ---- events (C14) ---------------------------------------------------------------
+
+// One row change of a cache update: exactly one cache operation; on success
+// exactly one event of the matching type carrying the models of that change,
+// enqueued after the operation succeeded; on failure no event.
+//@ func (*TableCache).ApplyCacheUpdate$1
+//@ trace cache.(*RowCache).Create cache.(*RowCache).Update cache.(*RowCache).Delete cache.(*eventProcessor).AddEvent
+//@ at call cache.(*eventProcessor).AddEvent requires calls("cache.(*eventProcessor).AddEvent") == 0
+//@ at call cache.(*eventProcessor).AddEvent requires arg1 == "add" ==> (calls("cache.(*RowCache).Create") == 1 && calls("cache.(*RowCache).Update") == 0 && calls("cache.(*RowCache).Delete") == 0 && arg3 == nil && arg4 == new)
+//@ at call cache.(*eventProcessor).AddEvent requires arg1 == "update" ==> (calls("cache.(*RowCache).Update") == 1 && calls("cache.(*RowCache).Create") == 0 && calls("cache.(*RowCache).Delete") == 0 && arg3 == old && arg4 == new)
+//@ at call cache.(*eventProcessor).AddEvent requires arg1 == "delete" ==> (calls("cache.(*RowCache).Delete") == 1 && calls("cache.(*RowCache).Create") == 0 && calls("cache.(*RowCache).Update") == 0 && arg3 == old && arg4 == nil)
+//@ at call cache.(*eventProcessor).AddEvent requires arg1 == "add" || arg1 == "update" || arg1 == "delete"
+//@ at call cache.(*RowCache).Create requires old == nil && new != nil && arg1 == uuid && arg2 == new
+//@ at call cache.(*RowCache).Update requires old != nil && new != nil && arg1 == uuid && arg2 == new
+//@ at call cache.(*RowCache).Delete requires new == nil && arg1 == uuid
+//@ ensures_ok calls("cache.(*eventProcessor).AddEvent") == 1 && calls("cache.(*RowCache).Create") + calls("cache.(*RowCache).Update") + calls("cache.(*RowCache).Delete") == 1
+//@ ensures_err calls("cache.(*eventProcessor).AddEvent") == 0
+
+// The dispatcher: every event taken off the queue is dispatched (under the
+// handlers lock) before the loop can return or take another one, and each
+// handler callback receives (old, new) in that order.
+//@ func (*eventProcessor).Run
+//@ requires e != nil
+//@ trace chan-recv:e.events sync.(*Mutex).Unlock
+//@ at call cache.EventHandler.OnAdd requires wheld(e.handlersMutex) >= 1 && arg1 == event.new
+//@ at call cache.EventHandler.OnUpdate requires wheld(e.handlersMutex) >= 1 && arg1 == event.old && arg2 == event.new
+//@ at call cache.EventHandler.OnDelete requires wheld(e.handlersMutex) >= 1 && arg1 == event.old
+//@ ensures calls("chan-recv:e.events") == 0 || last("chan-recv:e.events") < last("sync.(*Mutex).Unlock")
+//@ loop 1 invariant calls("chan-recv:e.events") == 0 || last("chan-recv:e.events") < last("sync.(*Mutex).Unlock")
+
+// AddEvent enqueues the event it was given or drops it; it never blocks.
+//@ func (*eventProcessor).AddEvent
+//@ requires e != nil
+//@ modifies nothing
+
+// Populate/Populate2 apply updates under the table-cache write lock.
+//@ func (*TableCache).Populate
+//@ at call cache.(*TableCache).ApplyCacheUpdate requires wheld(t.mutex) >= 1
+//@ func (*TableCache).Populate2
+//@ at call cache.(*TableCache).ApplyCacheUpdate requires wheld(t.mutex) >= 1
